@@ -8,6 +8,15 @@ parameters, result-type match in checking position).  `exp = none` is synthesis 
 `exp = some ty` checking position. -/
 namespace GuppyVerif.Overload
 
+/-! Reading guide (audit F4).  `first_match`, `reject_iff_none`, `same_as_direct`, `invalid_iff`,
+`resolveR_of_valid`, `nested_accepts_iff` and `shared_eq_fresh_of_no_mutation` are statements about the
+*resolution loop* only: they hold for any per-variant acceptance test and use the model's `attempt`
+as an opaque function (`accepts`/`direct` are defined from it).  They establish: order of trial,
+stop at the first success, no skipping of ill-formed variants, independence of attempts (fresh
+arguments).  They do NOT establish that `attempt` is the right acceptance test; for that there is
+`accepts_scalar_iff` (scalar fragment, against an independent widening relation) and, beyond that
+fragment, only the tie (direct calls of each variant through the real checker). -/
+
 /-- **C15 (first match)**: the call resolves to variant `i` with outcome `o` (result type and
     checked argument types) **iff** `i` is the position of the first listed variant that
     accepts the arguments (and the expected result type), and `o` is what that variant's own
@@ -95,6 +104,50 @@ theorem d8_shared_violates_first_match :
         (resolve d8Variants d8Args none).map (·.1) = some 1 := by
   refine ⟨?_, ?_, ?_⟩ <;> decide
 
+/-- **C15 ("whose signature accepts the arguments", scalar fragment)**: for variants and arguments
+    of scalar type the model's acceptance test is the language's rule, stated independently in
+    `Spec/C15.lean`: same number of arguments, every argument type widens to its parameter type
+    along nat → int → float (never narrowing, bool and qubit only to themselves), and in checking
+    position the result type is exactly the expected one.  For all lists, no size bound.
+    (Tuples, literals, quantified and `@comptime` parameters are covered by the tie only.) -/
+theorem accepts_scalar_iff (ps as : List Scalar) (ret : Scalar) (exp : Option Scalar) :
+    accepts (.plain { params := ps.map Scalar.toTy, ret := ret.toTy })
+        (as.map (fun a => Arg.typed a.toTy)) (exp.map Scalar.toTy) = true ↔
+      AcceptsScalar ps ret as exp := by
+  unfold accepts attempt attemptSig AcceptsScalar
+  simp only [List.length_map]
+  by_cases hlen : ps.length = as.length
+  · have hca := checkArgs_scalar ps as hlen
+    simp only [hlen, bne_self_eq_false, Bool.false_eq_true, ↓reduceIte]
+    rcases hres : checkArgs [] (ps.map Scalar.toTy) [] (as.map (fun a => Arg.typed a.toTy)) with ⟨r, a'⟩
+    rw [hres] at hca
+    rw [hres]
+    rcases hca.2 with h | h
+    · simp only at h
+      subst h
+      simp only [subst_scalar, closed_scalar, Bool.not_true, Bool.false_eq_true, ↓reduceIte]
+      have hall : AllWiden as ps := hca.1.mp rfl
+      cases exp with
+      | none => simp [hall]
+      | some e =>
+        simp only [Option.map_some, beq_scalar, Option.some.injEq, forall_eq', hall, true_and]
+        by_cases he : e = ret <;> simp [he]
+    · simp only at h
+      subst h
+      have hnot : ¬ AllWiden as ps := fun hw => by
+        have := hca.1.mpr hw
+        cases this
+      simp [hnot]
+  · have hne : (ps.length != as.length) = true := by simpa using hlen
+    simp only [hne, ↓reduceIte, Option.isSome_none, Bool.false_eq_true, false_iff]
+    rintro ⟨hw, _⟩
+    have : ∀ (as ps : List Scalar), AllWiden as ps → ps.length = as.length := by
+      intro as ps h
+      induction h with
+      | nil => rfl
+      | cons _ _ ih => simp [ih]
+    exact hlen (this as ps hw)
+
 /-- **C15 (an overloaded function as a variant)**: it accepts exactly when one of its own
     variants accepts. -/
 theorem nested_accepts_iff (ss : List Sig) (args : List Arg) (exp : Option Ty) :
@@ -149,6 +202,15 @@ theorem resolveR_of_valid (vs : List Variant) (args : List Arg) (exp : Option Ty
   goR_valid args exp vs 0 h
 
 /-! ### Non-vacuity -/
+
+/-- `(float, int) -> int` accepts `(nat, int)`; `(nat) -> int` does not accept an `int`; a wrong
+    expected type rejects -/
+example : AcceptsScalar [.float, .int] .int [.nat, .int] none := ⟨.cons .natFloat (.cons (.refl _) .nil), by simp⟩
+example : ¬ AcceptsScalar [.nat] .int [.int] none := by
+  rintro ⟨h, _⟩; cases h with | cons h _ => cases h
+example : ¬ AcceptsScalar [.int] .int [.int] (some .float) := by
+  rintro ⟨_, h⟩; have := h .float rfl; cases this
+
 
 /-- an ill-formed variant listed first is not skipped; listed after the accepting one it is never looked up -/
 example : (match resolveR [.invalid, .plain { params := [.int], ret := .int }] [.typed .int] none with
